@@ -136,7 +136,37 @@ def check_C04(c):
                          "storage of library-allocated copies is observed only through At (disjointness by probe writes)"]
 
 
-CHECKS = {"C01": check_C01, "C02": check_C02, "C03": check_C03, "C04": check_C04}
+def check_C13(c):
+    q = c.quick
+    inv = ["TypeOK", "CopiesDisjoint", "ReshapeKeepsFlat", "Emit"]
+    # (a) reshape to every factorisation, after slicing / transposing, row- and column-major
+    k = dict(MinRank=0, MaxRank=3 if q else 4, MaxDim=4 if q else 5, MaxDimHi=2 if q else 3, HiRank=3, Ctors={S("C"), S("F")},
+             MaxNewRank=3 if q else 4, WithViews=True, Mode=S("reshape"))
+    cases = c.tlc("MC_shape", "reshape", k, inv)
+    c.replay("reshape", cases, dtypes="sizes", pals="ident", rotate=2 if q else 0)
+    # (b) transposition: every axis list (valid, repeated, out of range, wrong length) against the calculator
+    k = dict(MinRank=0, MaxRank=3 if q else 4, MaxDim=3, MaxDimHi=2, HiRank=3, Ctors={S("C"), S("F")},
+             MaxNewRank=1, WithViews=not q, Mode=S("perm"))
+    cases = c.tlc("MC_shape", "perm", k, inv)
+    c.replay("perm", cases, dtypes="float64,int8" if q else "sizes", pals="ident", extra=["-calc"])
+    # (c) slicing: the argument space of C02 against the shape-only calculator
+    sl = dict(MinRank=1, MaxRank=2, MaxDim=3 if q else 5, MaxDimHi=2, FullRank=2, Depth=1, WithT=False, Ctors={S("C")}, MaxStep=2 if q else 3)
+    cases = c.tlc("MC_slice", "slice-calc", sl, ["TypeOK", "Emit"])
+    c.replay("slice-calc", cases, dtypes="float64", pals="ident", extra=["-calc"])
+    sl = dict(MinRank=3, MaxRank=3 if q else 4, MaxDim=2, MaxDimHi=3, FullRank=0, Depth=1, WithT=False, Ctors={S("C")}, MaxStep=2)
+    cases = c.tlc("MC_slice", "slice-calc-hi", sl, ["TypeOK", "Emit"])
+    c.replay("slice-calc-hi", cases, dtypes="int16", pals="ident", extra=["-calc"])
+    c.rep.rule = ("TLC enumerates (a) Reshape to every factorisation of the size (and to wrong sizes) of every tensor of rank 0-4 as built, "
+                  "sliced or lazily transposed, row- and column-major; (b) every axis list for T (valid, repeated, out of range, wrong length); "
+                  "(c) the slicing argument space of C02; (d) the repeat/concat argument spaces of C10. The replayer executes the operation "
+                  "AND the shape-only calculator (Shape.S, AP.T, Shape.Repeat, Shape.Concat) and demands the same shape and the same "
+                  "failure; after Reshape the flat element sequence in the tensor's own order and the caller's backing must be unchanged. "
+                  "The metadata invariant (size = product of shape; strides address distinct in-bounds positions) is evaluated on every "
+                  "tensor observed by every check")
+    c.rep.assumptions = ["a no-op error of the calculator counts as success (the operation swallows it)"]
+
+
+CHECKS = {"C01": check_C01, "C02": check_C02, "C03": check_C03, "C04": check_C04, "C13": check_C13}
 
 HOOK_COMMITS = []
 NOT_YET = {}
@@ -153,6 +183,10 @@ LEVELS = {
             "technique": "TLC-enumerated view/write/copy behaviours (MC_views, action property Frame) replayed on the real library",
             "text": "bounded exhaustive model checking: every view in bounds x every whole-tensor write and copy operation; the specification's heap frame is an action property checked by TLC, and the real library's complete backing storage plus every live tensor is compared with the specification's heap after each behaviour",
             "note": "bounded (rank<=4, dims<=3, views of <=2 steps); sentinel = pairwise distinct cell values"},
+    "C13": {"ref": "DESIGN.md 4 C13",
+            "technique": "TLC-enumerated reshape/permutation/slice/repeat/concat argument spaces (MC_shape, MC_slice, MC_assemble) replayed with the shape-only calculators executed next to the operations",
+            "text": "bounded exhaustive model checking: the specification supplies the complete argument spaces and the Level-1 result; the replayer runs the operation and the calculator and compares both with each other and with the specification; the metadata invariant is evaluated on every tensor produced by every check",
+            "note": "bounded (rank<=4, dims<=5)"},
     "C01": {"ref": "DESIGN.md 4 C01",
             "technique": "TLC-enumerated behaviours of the TLA+ tensor machine (MC_addr) replayed on the real library",
             "text": "bounded exhaustive model checking: TLC enumerates every shape/constructor/layout in bounds and the complete coordinate->cell table of each; every table entry is executed (At and SetAt) on the real tensor for every element type, with a full snapshot of all storage around each write",
